@@ -219,5 +219,66 @@ PLANS["C15"] = dict(
     technique="runtime monitoring: structural-invariant walker on hooked private state after every operation of generated histories",
 )
 
+
+def mapped_runs(q, t):
+    def runs(tier):
+        if tier == "quick":
+            return [R("mapped", "asan", q)]
+        return [R("mapped", "asan", t), R("mapped", "v3", t * 2)]
+    return runs
+
+
+MAPPED_RULE = ("case = one MappedPGMIndex<K,Eps,EpsRec> instantiation (12: i16..u64, eps 1..128, eps_rec 0/1/4) x one sorted array "
+               "(half: families of C01; half: runs of equal keys of length 1,2,3,2^j-1,2^j,2^j+1,eps,2eps+2,2eps+3,10eps, first "
+               "key negative/zero/positive, a single run covering the file; 1/3 of the files padded to end on a page boundary in "
+               "front of a PROT_NONE guard page) x the five objects {from range, from raw file, reopen A, reopen B, reopen A "
+               "again} constructed in a random valid order and alive simultaneously; ")
+PLANS["C11"] = dict(
+    runs=mapped_runs(200, 1500),
+    kinds={"lower_bound_mismatch", "upper_bound_mismatch", "count_mismatch", "contains_mismatch", "exposed_sequence_differs"},
+    rule=MAPPED_RULE + "oracle: lower_bound / upper_bound / count / contains vs the std algorithms on the source vector for the "
+         "full query set of C02, begin()/end()/size() expose exactly the sequence; non-trivial = a run longer than 2eps+2 and >= 1 "
+         "absent query",
+    assumptions=ASSUME_COMMON,
+)
+PLANS["C12"] = dict(
+    runs=mapped_runs(200, 1500),
+    kinds={"files_differ", "reopen_altered_file", "header_fields_differ", "sequence_differs", "answers_differ_between_objects"},
+    rule=MAPPED_RULE + "oracle: bytes(A) == bytes(B); bytes, size and mtime of a file unchanged by every reopen; n, first_key, "
+         "levels_offsets, segments, size(), file size identical across the five objects (read through a subclass); all query "
+         "answers of all objects equal the std algorithms on the source vector; non-trivial = first key != 0 and >= 2 segments",
+    assumptions=ASSUME_COMMON + ["files live in /verif/build/run on the local file system"],
+)
+
+
+def md_runs(q, t):
+    def runs(tier):
+        if tier == "quick":
+            return [R("multidim", "asan", q)]
+        return [R("multidim", "asan", t), R("multidim", "rel", t * 2)]
+    return runs
+
+
+MD_RULE = ("case = one MultidimensionalPGMIndex<D,T,Eps,EpsRec> instantiation (12: D 2..4, uint32/uint64, eps 1..64, eps_rec 0/4) x "
+           "one point multiset (dense grids with duplicates, sparse uniform, coordinates at the encoder's maximum, clusters, "
+           "points on a line, tiny sets; n <= 5000) ")
+PLANS["C13"] = dict(
+    runs=md_runs(250, 1500),
+    kinds={"point_outside_box", "not_in_morton_order", "range_does_not_terminate", "range_result_mismatch"},
+    rule=MD_RULE + "x 24/40 boxes (full space, single cells, one-cell slabs, stored corners, boxes reaching the largest stored "
+         "point, thin boxes that force the Z-order skip); oracle: brute force over the multiset (multiplicities), codes "
+         "non-decreasing by an independent bit interleaver, <= n+1 increments; non-trivial = a skip-eligible run (> 64 "
+         "consecutive out-of-box codes) or a duplicate point inside a box",
+    assumptions=ASSUME_COMMON,
+)
+PLANS["C14"] = dict(
+    runs=md_runs(250, 1500),
+    kinds={"contains_mismatch"},
+    rule=MD_RULE + "x membership probes: every stored point (capped), its axis neighbours, the origin, the maximum point, points "
+         "just above the largest stored code, random encodable points; oracle: multiset membership; non-trivial = absent points "
+         "between stored codes and outside them were judged",
+    assumptions=ASSUME_COMMON,
+)
+
 # properties not claimed (filled while the framework is being built; empty once every engine exists)
 NOT_APPLICABLE = {}
